@@ -30,7 +30,7 @@ from ..engine import (
     walk_no_nested,
 )
 from ..report import Report
-from ._chains import PARAMRES, extract_chain
+from ._chains import PARAMRES, exit_values, extract_chain
 from ..pat import find, find1, match, name_of
 
 NODES = "semantiva/pipeline/nodes/nodes.py"
@@ -105,11 +105,16 @@ def run(repo: Repo, R: Report) -> None:
     want = [("config", "config"), ("context", "context"), ("default", "default"), ("always", "raise:KeyError")]
     R.check(chain == want, r_res, PARAMRES, "resolve_runtime_value", f"first-match chain {chain}", f"run-time precedence is not [config, context, default, KeyError]; got {chain}", rrv.lineno)
     # the values returned are the ones looked up under `name`
-    rets = [n for n in walk_no_nested(rrv) if isinstance(n, ast.Return)]
-    ok = len(rets) == 3 and ast.unparse(rets[0].value) == "processor_config[name]" and ast.unparse(rets[1].value) in ("context.get_value(name)", "context[name]") and dotted_name(rets[2].value) is not None
-    dd = assigned_value(rrv, dotted_name(rets[2].value) or "") if len(rets) == 3 else []
-    ok = ok and bool(dd) and all(isinstance(v, ast.Call) and call_attr(v) == "_default_for" and dotted_name(v.args[1]) == "name" for v in dd)
-    R.check(ok, r_res, PARAMRES, "resolve_runtime_value", "returns config[name] / context.get_value(name) / _default_for(cls, name)", "a channel returns something other than the value stored under the parameter's own name", rrv.lineno)
+    # (role-based: every returned value is classified by the channel it reads, locals substituted)
+    exits = exit_values(rrv)
+    forms = {
+        "config": ("processor_config[name]",),
+        "context": ("context.get_value(name)", "context[name]"),
+        "default": ("_default_for(processor_cls, name)", "_default_for(processor_cls=processor_cls, name=name)"),
+    }
+    bad_exit = next((f"`{ast.unparse(v)[:60]}` ({lab})" for lab, v in exits if ast.unparse(v) not in forms.get(lab, ())), None)
+    ok = bad_exit is None and {lab for lab, _v in exits} == set(forms)
+    R.check(ok, r_res, PARAMRES, "resolve_runtime_value", "returns config[name] / context.get_value(name) / _default_for(cls, name)", f"a channel returns something other than the value stored under the parameter's own name: {bad_exit or sorted({lab for lab, _v in exits})}", rrv.lineno)
 
     # ------------------------------------------------------------------ D2
     r_gate = R.rule("C01-D2-type-gate", "a data node runs only after issubclass(type(data), processor.input_data_type()) held for the data it is given (else TypeError), and the payload handed to the node is the caller's (only None is normalised)", 4)
